@@ -115,6 +115,7 @@ def add(res, pid):
     tmp.obligations = [o for o in tmp.obligations if o.kind not in ("CANARY", "PROBE")]
     for o in tmp.obligations:
         o.props = {pid}
+        o.dependency = True      # discharged at quick strength also in the thorough tier (their own property's thorough run goes deeper)
     for f in tmp.functions:
         f["dependency"] = True
     res.obligations += tmp.obligations
